@@ -2,6 +2,7 @@
 package main
 
 import (
+	"regexp"
 	"bytes"
 	"context"
 	"encoding/json"
@@ -767,7 +768,7 @@ func buildReplay(w *World, fr *FnResult, o *OblResult) (src, why, expect string)
 		seen[d] = true
 	}
 	for _, d := range c.decls[o.NDecl:] {
-		if (strings.HasPrefix(d, "(declare-const H0_") || strings.HasPrefix(d, "(declare-const M0_")) && !seen[d] {
+		if isDefDecl(d) && !seen[d] {
 			sb.WriteString(d + "\n")
 			seen[d] = true
 		}
@@ -976,3 +977,7 @@ func collectLens(v Val, out *[]string) {
 }
 
 var _ = ssa.NaiveForm
+
+var defDeclRe = regexp.MustCompile(`^\(declare-const [HM]\d+_`)
+
+func isDefDecl(d string) bool { return defDeclRe.MatchString(d) }
